@@ -96,7 +96,7 @@ func startWith(path string, sc *plugin.SecureConfig) (*plugin.Client, error) {
 }
 
 func runChecksumCase(c ckCase, dir string) map[string]interface{} {
-	out := map[string]interface{}{}
+	out := map[string]interface{}{"other_launched": false}
 	path := filepath.Join(dir, c.Name+".sh")
 	marker := filepath.Join(dir, c.Name+".marker")
 	body := scriptBody(marker, c.FileSeed, c.FileSize)
@@ -249,11 +249,79 @@ func TestChecksumCases(t *testing.T) {
 			}
 		}()
 	}
+	var rel []ckCase
 	for _, c := range cases {
+		if c.Launch == "relpath" {
+			rel = append(rel, c)
+			continue
+		}
 		ch <- c
 	}
 	close(ch)
 	wg.Wait()
+	// cases that depend on the host's working directory and PATH (process-wide): alone, one after the other
+	for _, c := range rel {
+		fmt.Printf("SCENARIO %s\n", c.Name)
+		cw.begin(c.Name)
+		o := runRelPathCase(c, dir)
+		cw.end(c.Name)
+		ow.write(map[string]interface{}{"name": c.Name, "hash": c.Hash, "hash_nil": c.HashNil, "class": o["class_effective"], "class_given": c.Class,
+			"pos": c.Pos, "history": c.History, "file_size": c.FileSize, "launch": "cmd", "out": o})
+	}
+}
+
+// runRelPathCase: the command is a bare relative name. The file of that name in the host's working
+// directory is the one whose digest is checked; another executable of the same name sits in a PATH
+// directory. What gets executed must be the file that was checked.
+func runRelPathCase(c ckCase, dir string) map[string]interface{} {
+	out := map[string]interface{}{"class_effective": c.Class}
+	work := filepath.Join(dir, c.Name+".cwd")
+	evil := filepath.Join(dir, c.Name+".path")
+	os.MkdirAll(work, 0o755)
+	os.MkdirAll(evil, 0o755)
+	defer os.RemoveAll(work)
+	defer os.RemoveAll(evil)
+	name := "plug-" + c.Name
+	marker := filepath.Join(dir, c.Name+".marker")
+	otherMarker := filepath.Join(dir, c.Name+".other.marker")
+	body := scriptBody(marker, c.FileSeed, c.FileSize)
+	os.WriteFile(filepath.Join(work, name), body, 0o755)
+	os.WriteFile(filepath.Join(evil, name), scriptBody(otherMarker, c.FileSeed+1, c.FileSize), 0o755)
+	h := newHash(c.Hash)
+	h.Write(body)
+	sum := h.Sum(nil)
+	want := append([]byte(nil), sum...)
+	if c.Class != "exact" {
+		want[0] ^= 0x5a
+		out["class_effective"] = "other"
+	}
+	oldwd, _ := os.Getwd()
+	oldPath := os.Getenv("PATH")
+	os.Chdir(work)
+	os.Setenv("PATH", evil+string(os.PathListSeparator)+oldPath)
+	defer func() { os.Chdir(oldwd); os.Setenv("PATH", oldPath) }()
+	cl := plugin.NewClient(&plugin.ClientConfig{
+		HandshakeConfig: plugin.HandshakeConfig{ProtocolVersion: 1, MagicCookieKey: "K", MagicCookieValue: "V"},
+		Plugins:         plugin.PluginSet{}, Cmd: &exec.Cmd{Path: name, Args: []string{name}},
+		SecureConfig: &plugin.SecureConfig{Checksum: want, Hash: newHash(c.Hash)}, StartTimeout: 400 * time.Millisecond, Logger: hclog.NewNullLogger(),
+	})
+	_, err := cl.Start()
+	r := classifyErr(err)
+	if len(r) > 6 && r[:6] == "other:" {
+		out["late_err"] = r
+		r = "launch" // passed the gate; failed later (the script is no plugin, or it could not be executed)
+	}
+	out["result"] = r
+	time.Sleep(200 * time.Millisecond)
+	_, merr := os.Stat(marker)
+	_, oerr := os.Stat(otherMarker)
+	out["launched"] = merr == nil
+	out["launched_late"] = merr == nil
+	out["other_launched"] = oerr == nil
+	cl.Kill()
+	os.Remove(marker)
+	os.Remove(otherMarker)
+	return out
 }
 
 func launchOf(c ckCase) string {
